@@ -271,7 +271,9 @@ def check_setting(case, ctx):
     if got is None:
         raise Violation("display/worker-failed", "%s: %s" % (name, err), detail=str(case["frt"]))
     ctx.count(got["n"])
-    for k in ("stream", "json", "sqlite", "sqlite-datetime-list", "avro", "stored", "eq"):
+    # 'sqlite-datetime-list' last: it is a listed finding, and the first difference found ends the case
+    for k in ("stream", "json", "sqlite", "avro", "stored", "eq", "read-stream", "read-json", "read-sqlite", "read-avro",
+              "sqlite-datetime-list"):
         if got[k] != ref[k]:
             raise Violation("display/%s-differs" % k, "%s: %s digest %s differs from the default setting's %s (display %s)"
                             % (name, k, got[k][:12], ref[k][:12], got["display"]))
